@@ -60,7 +60,12 @@ def generate(rng, tier):
                 w = [rng.choice([0, 0, 1, 2, 3]) for _ in range(k)]
                 if not any(w):
                     w[rng.randrange(k)] = 1
-                d = [max(1, sum(wi * b[j] for wi, b in zip(w, basis)) + rng.randint(-12, 12)) for j in range(m)]
+                if kind == 'optimize' and rng.random() < 0.5:
+                    # the best weights are dominated by a negative one (seeded change C08-m10: sign convention applied to the fit)
+                    w = [rng.choice([1, 2])] + [-rng.choice([3, 4, 5])] + [0] * (k - 2)
+                    d = [sum(wi * b[j] for wi, b in zip(w, basis)) + rng.randint(-2, 2) for j in range(m)]
+                else:
+                    d = [max(1, sum(wi * b[j] for wi, b in zip(w, basis)) + rng.randint(-12, 12)) for j in range(m)]
             else:
                 d = gen_pos_vec(rng, m)
             if len(set(d)) < 3:
@@ -124,6 +129,11 @@ def build(c):
         train = D.subsample_pattern('index', sel) if sel is not None else D
     sig = None if c['sigma'] is None else np.array(c['sigma'], float) / 4
     return B, D, train, sel, sig
+
+
+def RDMs_of(c):
+    from rsatoolbox.rdm import RDMs
+    return RDMs(np.array(c['basis8'], float) / 8)
 
 
 def scorer(c, mdl, train, sel, sig):
@@ -318,6 +328,17 @@ def oracle(c, o):
     if positive and (theta < -1e-12).any():
         return f'non-negative fitter returned a negative weight: {theta}'
     if call == 'optimize':
+        # the optimiser-based fitters are not claimed to converge exactly; a fit that is far below the closed-form optimum of the
+        # same criterion (a mirrored weight vector scores about -1 instead of +1) is reported
+        if not c['positive']:
+            from rsatoolbox.model import fitter as Fi2
+            kw2 = dict(method=c['method'], sigma_k=sig)
+            if sel is not None:
+                kw2.update(pattern_idx=np.array(sel), pattern_descriptor='index')
+            t_ref = Fi2.fit_regress(M.ModelWeighted('w', RDMs_of(c)), train, **kw2)
+            if np.isfinite(sc(t_ref)) and best < sc(t_ref) - 0.2:
+                return (f'fit_optimize returned {theta} with average {c["method"]} similarity {best}, the regression solution {t_ref} '
+                        f'reaches {sc(t_ref)}')
         return None
     cands = [theta + rs.randn(k) * s for s in (1e-3, 1e-2, 1e-1, 1e-1)] + [rs.randn(k) for _ in range(6)] + list(np.eye(k)) + [np.ones(k)]
     try:
